@@ -1,6 +1,7 @@
 package main
 
 import (
+	"go/token"
 	"fmt"
 	"go/types"
 	"strings"
@@ -192,6 +193,8 @@ func runC16(c *Ctx) {
 	r.Rule("R16.4", "no pointer into package-level state that could be modified through it leaves the function that obtained it")
 	// cells are copied by value between tables and share their property-chain links: tables stay independent only
 	// while those links are never modified once built (C12's R12.1)
+	r.Rule("R16.6", "an object handed to a sync.Pool is not also returned to the caller or kept")
+	c16PoolDiscipline(c)
 	r.Rule("R16.5", "structure shared by by-value copies of a cell (property-chain links, callback lists) is never modified in place")
 	importPremises(c, "R16.5", "shared-structure premise ", "two tables holding copies of one cell would write the same memory", func(o *Ob) bool { return o.Rule == "R12.1" }, func() { runC12(c) })
 	importPremises(c, "R16.5", "shared-structure premise ", "two tables holding copies of one cell would append into the same backing array", func(o *Ob) bool { return o.Rule == "R13.6" }, func() { runC13(c) })
@@ -448,4 +451,78 @@ func immutableGlobalTarget(c *Ctx, g *ssa.Global, vt types.Type) bool {
 		}
 	}
 	return true
+}
+
+// c16PoolDiscipline: whatever a function puts into a sync.Pool (directly or by defer) is from then on another
+// goroutine's to take. The function must not also return it - or memory reachable through it - to its caller.
+func c16PoolDiscipline(c *Ctx) {
+	r := c.R
+	n := 0
+	for _, fn := range c.LibFuncs() {
+		eachInstr(fn, func(in ssa.Instruction) {
+			cc := callCommon(in)
+			if cc == nil {
+				return
+			}
+			f := cc.StaticCallee()
+			if f == nil || f.Name() != "Put" || funcPkgPath(f) != "sync" || len(cc.Args) < 2 {
+				return
+			}
+			n++
+			pooled := unwrap(cc.Args[1], true)
+			// everything that shares memory with the pooled object within this function
+			shared := map[ssa.Value]bool{}
+			var spread func(v ssa.Value, depth int)
+			spread = func(v ssa.Value, depth int) {
+				if v == nil || shared[v] || depth > 12 {
+					return
+				}
+				shared[v] = true
+				for _, rr := range referrersOf(v) {
+					switch x := rr.(type) {
+					case *ssa.UnOp:
+						if x.Op == token.MUL && pointerLike(x.Type()) {
+							spread(x, depth+1)
+						}
+					case *ssa.Slice:
+						spread(x, depth+1)
+					case *ssa.Phi:
+						spread(x, depth+1)
+					case *ssa.IndexAddr:
+						spread(x, depth+1)
+					case *ssa.FieldAddr:
+						spread(x, depth+1)
+					case *ssa.ChangeType:
+						spread(x, depth+1)
+					case *ssa.MakeInterface:
+						spread(x, depth+1)
+					case *ssa.Call:
+						if b, ok := x.Call.Value.(*ssa.Builtin); ok && b.Name() == "append" && x.Call.Args[0] == v {
+							spread(x, depth+1)
+						}
+					case *ssa.Store:
+						if x.Addr == v {
+							spread(x.Val, depth+1) // what is stored in the pooled object belongs to the pool too
+						}
+					}
+				}
+			}
+			spread(pooled, 0)
+			bad := ""
+			for _, ret := range returnsOf(fn) {
+				for _, rv := range results(ret) {
+					for _, v := range phiClosure(rv) {
+						if shared[unwrap(v, true)] {
+							bad = c.Pos(ret.Pos())
+						}
+					}
+				}
+			}
+			r.Check("R16.6", FuncName(fn), fmt.Sprintf("sync.Pool.Put #%d: the pooled object is not also handed to the caller", n), in.Pos(), bad == "",
+				"the return at "+bad+" hands out memory that was (or, by defer, will at once be) put back into the pool: a concurrent render can take and overwrite it")
+		})
+	}
+	if n == 0 {
+		r.Check("R16.6", "module", "no sync.Pool in use", 0, true, "")
+	}
 }
